@@ -40,10 +40,10 @@ def build_db(m, sc, out, path):
     return db
 
 
-def check(chk, sc, out, path):
+def check(chk, sc, out, path, block=False):
     payload = {"kind": "lre", "sc": _plain(sc), "src": list(out["src"])}
-    tag = "lre:%s:%s" % (sc["id"], "dev" if sc["dev"] else "lev")
-    desc = "model %s deviation=%s init=%s unanticipated=%s anticipated=%s" % (sc["id"], sc["dev"], _plain(sc["init"]), sorted(sc["u"]), sorted(sc["a"]))
+    tag = "lre:%s:%s%s" % (sc["id"], "dev" if sc["dev"] else "lev", ":measurement-block" if block else "")
+    desc = ("(measurement equations written as a simultaneous block) " if block else "") + "model %s deviation=%s init=%s unanticipated=%s anticipated=%s" % (sc["id"], sc["dev"], _plain(sc["init"]), sorted(sc["u"]), sorted(sc["a"]))
     try:
         m = model(out["src"], out["linear"])
         db = build_db(m, sc, out, path)
@@ -170,12 +170,15 @@ def run(chk):
     dump = chk.scratch.file("lre.dump")
     r = tlc.must_pass(tlc.run("LinearREMC", "LinearREMC.thorough.cfg" if chk.tier == "thorough" else "LinearREMC.cfg", chk.scratch, dump=dump, timeout=3600), "LinearREMC")
     chk.add_tlc(r, "LinearREMC")
-    n = 0
+    n = nblock = 0
     seen_models = {}
     groups = {}
     for st in tlaval.parse_dump(dump, want=lambda b: "fin = TRUE" in b):
         sc, out, path = st["sc"], st["out"], dict(st["path"])
         check(chk, sc, out, path)
+        if len(out["mvars"]) >= 2 and (chk.tier == "thorough" or n % 3 == 0):
+            check(chk, sc, dict(out, src=out["srcb"]), path, block=True)
+            nblock += 1
         if sc["id"] in ("L2", "L9"):
             groups.setdefault((sc["dev"], repr(_plain(sc["init"])), repr(sorted(sc["u"])), repr(sorted(sc["a"]))), {})[sc["id"]] = (sc, out, path)
         seen_models.setdefault(sc["id"], out)
@@ -191,8 +194,11 @@ def run(chk):
             nv += 1
     if not nv:
         raise MachineryError("LinearREMC: no pair of scenarios for the multi-variant model")
-    chk.replayed += nv
+    if not nblock:
+        raise MachineryError("LinearREMC: no scenario with a measurement block")
+    chk.replayed += nv + nblock
     chk.notes["two_variant_parametric_simulations"] = nv
+    chk.notes["simulations_with_measurement_equations_as_block"] = nblock
     if n * (TN + 1) != r.distinct:
         raise MachineryError("LinearREMC: %d final states for %d distinct states" % (n, r.distinct))
     for ident, out in sorted(seen_models.items()):
